@@ -18,7 +18,7 @@ func init() {
 	register("C17", propMeta{
 		Level: "other",
 		Explanation: "Only the token clause of the statement is decided (`every cursor token the server hands out is accepted back and stands for the same query, filters included`). R17a (type graph): every type that is encoded as a cursor or decoded from one (type arguments of the instantiations of EncodeAsCursor/EncodeCursor/Extract and the targets of UnmarshalCursor, in libs/bun/bunpaginate and internal/storage/paginate) is walked through all reachable fields: every field is exported and has a JSON name, no func/chan fields, named types have MarshalJSON iff UnmarshalJSON, and every field of a non-empty interface type is covered by an UnmarshalJSON of an enclosing struct that assigns it while every implementation of the interface in the repository has a MarshalJSON. " +
-			"R17b: encoder and decoder use the same base64 encoding object and json.Marshal/json.Unmarshal. R17e: in column pagination the row a cursor is positioned on agrees with the comparison it is read with (strict bound ⇒ last row shown, inclusive bound ⇒ first row not shown, or same id with flipped direction). R17f: in offset pagination the window is Offset / PageSize+1 and the cursors move the offset by exactly one page (next under `a further row was fetched`, previous clamped at 0 under Offset > 0). R17g: a loop that walks a listing page by page (bunpaginate.Iterate) decodes the query of the following fetch from Cursor.Next of the cursor it was handed. R17h: api.MapCursor stores every field of the Cursor it builds, each one other than Data from the same field of the cursor it was given. R17d: the JSON kinds the builders can write under their operator (a nil slice/map/pointer encodes as null) are all cases of the type switch of the decoder that reads that operator (parseSet, parseKeyValue, the $not case). R17c: the operator names emitted by the MarshalJSON methods of the query builders are all accepted by the parser (mapMapToExpression), and each builder's MarshalJSON writes its operator, key and value / items / sub-expression.",
+			"R17b: encoder and decoder use the same base64 encoding object and json.Marshal/json.Unmarshal. R17e: in column pagination the row a cursor is positioned on agrees with the comparison it is read with (strict bound ⇒ last row shown, inclusive bound ⇒ first row not shown, or same id with flipped direction). R17f: in offset pagination the window is Offset / PageSize+1 and the cursors move the offset by exactly one page (next under `a further row was fetched`, previous clamped at 0 under Offset > 0). R17g: a loop that walks a listing page by page (bunpaginate.Iterate) decodes the query of the following fetch from Cursor.Next of the cursor it was handed. R17i: in the paginators Cursor.HasMore is `next != nil` of the pointer encoded into Cursor.Next (or the condition under which that pointer is set). R17j: the hand-written decoders of cursor contents (PaginatedQueryOptions) store every decoded field into the receiver. R17h: api.MapCursor stores every field of the Cursor it builds, each one other than Data from the same field of the cursor it was given. R17d: the JSON kinds the builders can write under their operator (a nil slice/map/pointer encodes as null) are all cases of the type switch of the decoder that reads that operator (parseSet, parseKeyValue, the $not case). R17c: the operator names emitted by the MarshalJSON methods of the query builders are all accepted by the parser (mapMapToExpression), and each builder's MarshalJSON writes its operator, key and value / items / sub-expression.",
 		NotDecided:  "page arithmetic (pageSize+1, inclusive bounds, Bottom, offsets, previous/next) — numerical, not decided; whether decoded filter values have the same dynamic type as the original ones (JSON numbers come back as float64).",
 		Trusted:     []string{"encoding/json and encoding/base64 round-trip semantics for exported, tagged fields of concrete types"},
 	}, runC17)
@@ -250,6 +250,8 @@ func runC17(c *Ctx) {
 	ruleR17f(c)
 	ruleR17g(c)
 	ruleMapCursorCopies(c, "R17h")
+	ruleR13h(c, "R17j", 1)
+	ruleHasMoreMeansNext(c, "R17i")
 }
 
 func (c *Ctx) instancesOrSelf(fn *ssa.Function) []*ssa.Function {
